@@ -74,6 +74,8 @@ type c19Input struct {
 	Reports    [][]JCR `json:"reports"`
 	Txs        []c19Tx `json:"txs"`
 	Queries    []int64 `json:"queries"` // µs; proxy mode only
+	Attach     []int64 `json:"attach"`  // per subscriber, µs: when it subscribes (0: before Start); proxy mode only
+	Detach     []int64 `json:"detach"`  // per subscriber, µs: when it unsubscribes (0: never); proxy mode only
 }
 
 type c19JTx struct {
@@ -109,6 +111,7 @@ type c19JRec struct {
 type c19Impl struct {
 	Dict     []c19JBlock `json:"dict"`   // distinct blocks seen anywhere
 	Chain    []int       `json:"chain"`  // as broadcast (undelayed observer), indices into dict
+	Times    []int64     `json:"times"`  // virtual µs after Start at which the observer got each block
 	Hashes   []string    `json:"hashes"` // hash ids used in hists
 	Subs     []c19JSub   `json:"subs"`
 	Accepted [][]bool    `json:"accepted"`
@@ -200,6 +203,52 @@ func c19Normalise(in *c19Input) {
 		in.Queries[i] = offGrid(in.Queries[i])
 	}
 	sort.Slice(in.Queries, func(i, j int) bool { return in.Queries[i] < in.Queries[j] })
+	at := make([]int64, in.Subs)
+	dt := make([]int64, in.Subs)
+	if !in.Native {
+		for i := range at {
+			if i < len(in.Attach) && in.Attach[i] > 0 {
+				at[i] = offGrid(in.Attach[i])
+			}
+			if i < len(in.Detach) && in.Detach[i] > 0 {
+				dt[i] = offGrid(in.Detach[i])
+				if dt[i] <= at[i] {
+					dt[i] = at[i] + 1000
+				}
+			}
+		}
+	}
+	in.Attach, in.Detach = at, dt
+	// all operation instants distinct (operations are executed one after the other)
+	used := map[int64]bool{}
+	uniq := func(v int64) int64 {
+		for used[v] || v%1000 == 0 {
+			v++
+		}
+		used[v] = true
+		return v
+	}
+	for i := range in.Txs {
+		in.Txs[i].At = uniq(in.Txs[i].At)
+	}
+	sort.SliceStable(in.Txs, func(i, j int) bool { return in.Txs[i].At < in.Txs[j].At })
+	for i := range in.Queries {
+		in.Queries[i] = uniq(in.Queries[i])
+	}
+	sort.Slice(in.Queries, func(i, j int) bool { return in.Queries[i] < in.Queries[j] })
+	for i := range in.Attach {
+		if in.Attach[i] > 0 {
+			in.Attach[i] = uniq(in.Attach[i])
+		}
+	}
+	for i := range in.Detach {
+		if in.Detach[i] > 0 {
+			if in.Detach[i] <= in.Attach[i] {
+				in.Detach[i] = in.Attach[i] + 1
+			}
+			in.Detach[i] = uniq(in.Detach[i])
+		}
+	}
 	if in.Reports == nil {
 		in.Reports = [][]JCR{}
 	}
@@ -220,12 +269,13 @@ func c19Normalise(in *c19Input) {
 // listener's run goroutine) takes a real, undelayed subscription and forwards
 // block i after delays[i] ms.
 type c19Proxy struct {
-	bb     *chain.BlockBroadcaster
-	delays []int
-	stop   chan struct{}
-	wg     sync.WaitGroup
-	mu     sync.Mutex
-	ids    []int
+	bb      *chain.BlockBroadcaster
+	genesis *big.Int
+	delays  []int // by block index (number - genesis)
+	stop    chan struct{}
+	wg      sync.WaitGroup
+	mu      sync.Mutex
+	ids     []int
 }
 
 func (p *c19Proxy) Subscribe(bool) (int, chan chain.Block) {
@@ -237,13 +287,13 @@ func (p *c19Proxy) Subscribe(bool) (int, chan chain.Block) {
 	p.wg.Add(1)
 	go func() {
 		defer p.wg.Done()
-		idx := 0
 		for blk := range src {
 			d := 0
-			if idx < len(p.delays) {
-				d = p.delays[idx]
+			if blk.Number != nil {
+				if i := new(big.Int).Sub(blk.Number, p.genesis); i.IsInt64() && i.Int64() >= 0 && i.Int64() < int64(len(p.delays)) {
+					d = p.delays[i.Int64()]
+				}
 			}
-			idx++
 			p.wg.Add(1)
 			go func(blk chain.Block, d int) {
 				defer p.wg.Done()
@@ -261,6 +311,16 @@ func (p *c19Proxy) Subscribe(bool) (int, chan chain.Block) {
 }
 
 func (p *c19Proxy) Unsubscribe(id int) { p.bb.Unsubscribe(id) }
+
+// detach unsubscribes from the real broadcaster; blocks already on their (delayed) way still arrive
+func (p *c19Proxy) detach() {
+	p.mu.Lock()
+	ids := append([]int(nil), p.ids...)
+	p.mu.Unlock()
+	for _, id := range ids {
+		p.bb.Unsubscribe(id)
+	}
+}
 
 func (p *c19Proxy) shutdown() {
 	p.mu.Lock()
@@ -357,6 +417,8 @@ func c19Run(t *testing.T, in c19Input) c19Impl {
 	var (
 		srcMu    sync.Mutex
 		srcChain []chain.Block
+		srcTimes []int64
+		t0       time.Time // set just before Start
 	)
 	srcID, srcCh := bb.Subscribe(false)
 	srcFin := make(chan struct{})
@@ -365,6 +427,7 @@ func c19Run(t *testing.T, in c19Input) c19Impl {
 		for b := range srcCh {
 			srcMu.Lock()
 			srcChain = append(srcChain, b)
+			srcTimes = append(srcTimes, time.Since(t0).Microseconds())
 			srcMu.Unlock()
 		}
 	}()
@@ -372,13 +435,14 @@ func c19Run(t *testing.T, in c19Input) c19Impl {
 	stopCollect := make(chan struct{})
 	nodes := make([]*c19Node, in.Subs)
 	nativeIDs := []int{}
-	for s := range nodes {
+	// attach builds what hydrator.go builds per node on the shared broadcaster
+	attach := func(s int) {
 		n := &c19Node{fin: make(chan struct{})}
 		if in.Native {
 			n.listener = chain.NewListener(bb, quietLogger)
 			nativeIDs = append(nativeIDs, srcID+1+s)
 		} else {
-			n.proxy = &c19Proxy{bb: bb, delays: in.Delays[s], stop: make(chan struct{})}
+			n.proxy = &c19Proxy{bb: bb, genesis: genesis, delays: in.Delays[s], stop: make(chan struct{})}
 			n.listener = chain.NewListener(n.proxy, quietLogger)
 		}
 		synctest.Wait() // the listener's goroutine has subscribed: ids are assigned in creation order
@@ -414,6 +478,12 @@ func c19Run(t *testing.T, in c19Input) c19Impl {
 			}
 		}()
 		nodes[s] = n
+		synctest.Wait()
+	}
+	for s := range nodes {
+		if in.Attach[s] == 0 {
+			attach(s)
+		}
 	}
 	synctest.Wait()
 
@@ -427,7 +497,7 @@ func c19Run(t *testing.T, in c19Input) c19Impl {
 		return tr
 	}
 
-	t0 := time.Now()
+	t0 = time.Now()
 	done := bb.Start()
 	go func() {
 		<-done    // the broadcaster passed its limit
@@ -436,22 +506,35 @@ func c19Run(t *testing.T, in c19Input) c19Impl {
 
 	// operations in time order
 	type op struct {
-		at    int64
-		tx    int // index into in.Txs or -1
-		query bool
+		at     int64
+		tx     int // index into in.Txs or -1
+		query  bool
+		attach int // subscriber to attach, or -1
+		detach int // subscriber to detach, or -1
 	}
 	ops := []op{}
+	for s := range nodes {
+		if in.Attach[s] > 0 {
+			ops = append(ops, op{at: in.Attach[s], tx: -1, attach: s, detach: -1})
+		}
+		if in.Detach[s] > 0 {
+			ops = append(ops, op{at: in.Detach[s], tx: -1, attach: -1, detach: s})
+		}
+	}
 	for i, x := range in.Txs {
-		ops = append(ops, op{at: x.At, tx: i})
+		ops = append(ops, op{at: x.At, tx: i, attach: -1, detach: -1})
 	}
 	for _, q := range in.Queries {
-		ops = append(ops, op{at: q, tx: -1, query: true})
+		ops = append(ops, op{at: q, tx: -1, query: true, attach: -1, detach: -1})
 	}
 	sort.SliceStable(ops, func(i, j int) bool { return ops[i].at < ops[j].at })
 
 	impl := c19Impl{Accepted: make([][]bool, len(in.Txs))}
 	queryAll := func() {
 		for _, n := range nodes {
+			if n == nil {
+				continue // not attached yet
+			}
 			evs, err := n.reports.GetLatestEvents(context.Background())
 			if err != nil {
 				t.Fatalf("GetLatestEvents: %v", err)
@@ -472,6 +555,17 @@ func c19Run(t *testing.T, in c19Input) c19Impl {
 		sleepUntil(time.Duration(o.at) * time.Microsecond)
 		if o.query {
 			queryAll()
+			continue
+		}
+		if o.attach >= 0 {
+			attach(o.attach) // a node joining while the chain runs
+			continue
+		}
+		if o.detach >= 0 {
+			if n := nodes[o.detach]; n != nil && n.proxy != nil {
+				n.proxy.detach() // Unsubscribe on the real broadcaster
+				synctest.Wait()
+			}
 			continue
 		}
 		x := in.Txs[o.tx]
@@ -599,6 +693,7 @@ func c19Run(t *testing.T, in c19Input) c19Impl {
 	for _, b := range srcChain {
 		impl.Chain = append(impl.Chain, blockIdx(b))
 	}
+	impl.Times = append([]int64{}, srcTimes...)
 	hashIdx := map[string]int64{}
 	impl.Hashes = []string{}
 	for _, n := range nodes {
@@ -774,6 +869,28 @@ func c19Gen(r *Rng, em *Emitter) c19Input {
 			in.Delays[s] = d
 		}
 	}
+	// subscribers leaving and joining while the chain runs
+	in.Attach = make([]int64, in.Subs)
+	in.Detach = make([]int64, in.Subs)
+	if !in.Native {
+		wspan := uint64(in.Count+1) * uint64(in.CadenceMs) * 1000
+		if in.Subs >= 2 && r.Chance(40) {
+			for n := r.Range(1, 2); n > 0; n-- {
+				s := r.Intn(in.Subs)
+				if r.Chance(70) {
+					s = r.Intn(in.Subs - 1) // not the most recent subscriber
+				}
+				in.Detach[s] = 1 + int64(r.U64()%wspan)
+			}
+			em.Hit("sub-detach")
+		}
+		if r.Chance(30) {
+			for n := r.Range(1, 2); n > 0; n-- {
+				in.Attach[r.Intn(in.Subs)] = 1 + int64(r.U64()%wspan)
+			}
+			em.Hit("sub-late-join")
+		}
+	}
 	// reports (distinct bytes; at most one empty)
 	nrep := r.Range(0, 5)
 	empty := false
@@ -871,6 +988,16 @@ func c19Edge() []c19Input {
 		Txs: []c19Tx{{At: 150137, Rep: 0, Round: 1, Nodes: []int{0}}}}
 	st.Delays[0][1] = 2000
 	out = append(out, st)
+	// subscribers come and go while the chain runs: the first one leaves (the others must keep
+	// receiving), one joins after that, one joins and leaves again, one joins after the last block
+	out = append(out,
+		c19Input{Genesis: "95", Count: 14, CadenceMs: 100, Subs: 3, Delays: zero(3, 14), Detach: []int64{350137, 0, 0}},
+		c19Input{Genesis: "95", Count: 14, CadenceMs: 100, Subs: 3, Delays: zero(3, 14), Detach: []int64{250137, 0, 0},
+			Attach: []int64{0, 0, 600137}},
+		c19Input{Genesis: "995", Count: 20, CadenceMs: 10, Subs: 4, Delays: [][]int{make([]int, 20), {35, 0, 0, 0, 0, 0, 25, 0, 0, 0, 0, 0, 0, 0, 0, 0, 0, 0, 0, 0}, make([]int, 20), make([]int, 20)},
+			Attach: []int64{0, 25137, 0, 400137}, Detach: []int64{0, 95137, 155137, 0}, Reports: [][]JCR{rep(1)},
+			Txs: []c19Tx{{At: 45137, Rep: 0, Round: 1, Nodes: []int{0, 1}}}, Queries: []int64{70137, 120137}},
+	)
 	for i := range out {
 		c19Normalise(&out[i])
 	}
